@@ -133,6 +133,8 @@ class Sim:
             if c.conn is None:
                 if c.can_connect() and a["opens"] < self.max_opens:
                     acts.append(("open", X))
+                    if "unwelcome-later" in self.adv and a["opens"] >= 1 and not getattr(self, "unwelcomes", 0):
+                        acts.append(("open_unwelcome", X))
                     if ("failopen" in self.adv or ("failopen-reconnect" in self.adv and a["opens"] > 0)) and self.failopens < (2 if "failopen-reconnect" in self.adv else 1):
                         acts.append(("failopen", X))
             else:
@@ -240,6 +242,12 @@ class Sim:
             self.world.settle(deliver=False, stop=False)
         elif kind == "open":
             a["opens"] += 1
+            c.open()
+        elif kind == "open_unwelcome":
+            # a reconnect on which the server's welcome carries an error (the server was restarted refusing clients)
+            self.unwelcomes = getattr(self, "unwelcomes", 0) + 1
+            a["opens"] += 1
+            self.world.server.welcome_next = {"error": "go away (later)"}
             c.open()
         elif kind == "drop":
             c.drop()
